@@ -170,8 +170,116 @@ MonGsMaria(e) ==
     <<~o.parseErr /\ o.text2 = o.text /\ o.eq, "parsing the printed MariaDB set does not return an equal set">>})
   \cup MariaHist(e, e.entries, o.text, e.ops, e.hist)
 
+(***************************************************************************)
+(* C09: rows events split into exactly the encoded rows and images.        *)
+(***************************************************************************)
+ValCells(cells) == SelectSeq(cells, LAMBDA c : c.st = "val")
+ImageData(cells) == Concat([i \in 1..Len(ValCells(cells)) |-> ValCells(cells)[i].bytes])
+PresentCells(cells) == SelectSeq(cells, LAMBDA c : c.st # "absent")
+NullBits(cells) == [i \in 1..Len(PresentCells(cells)) |-> IF PresentCells(cells)[i].st = "null" THEN 1 ELSE 0]
+\* the length rule applied along the image: lengths of the non-NULL present cells, from the spec's CellLen
+RECURSIVE SpecLens(_, _, _, _)
+SpecLens(cols, cells, data, pos) ==
+  IF cells = <<>> THEN <<>>
+  ELSE IF Head(cells).st # "val" THEN SpecLens(Tail(cols), Tail(cells), data, pos)
+  ELSE LET n == CellLen(Head(cols).typ, Head(cols).metab, data, pos)
+       IN <<n>> \o SpecLens(Tail(cols), Tail(cells), data, pos + n)
+ByteLens(cells) == [i \in 1..Len(ValCells(cells)) |-> Len(ValCells(cells)[i].bytes)]
+
+MonRows(e) ==
+  LET o == e.obs
+      hasB == e.kind # "write"
+      hasA == e.kind # "delete"
+  IN IF o.panic THEN {F("C09.panic", e, "Rows() panicked on a well-formed event")}
+     ELSE IF o.err THEN {F("C09.error", e, "Rows() returned an error for a well-formed event")}
+     ELSE Chk("C09.rows", e, {
+            <<o.nrows = Len(e.rows), "row count differs from the encoded row count">>,
+            <<o.tid = e.tid, "table id of the rows event">>,
+            <<(hasB => o.presentB = e.pb) /\ (hasA => o.presentA = e.pa), "columns-present bitmaps">>}) \cup
+          UNION {
+            LET r == e.rows[i]  x == o.rows[i] IN
+            Chk("C09.image", e, {
+              <<hasB => (x.id = ImageData(r.b) /\ x.nullsB = NullBits(r.b)), "before image / NULL bitmap differs from the encoded image">>,
+              <<hasA => (x.data = ImageData(r.a) /\ x.nullsA = NullBits(r.a)), "after image / NULL bitmap differs from the encoded image">>}) \cup
+            Chk("C09.consume", e, {
+              <<hasB => (~x.walkB.err /\ ~x.walkB.panic /\ x.walkB.lens = ByteLens(r.b) /\ x.walkB.total = Len(ImageData(r.b))
+                         /\ SpecLens(e.cols, r.b, ImageData(r.b), 1) = ByteLens(r.b)),
+                "decoding the before image column by column does not consume it exactly">>,
+              <<hasA => (~x.walkA.err /\ ~x.walkA.panic /\ x.walkA.lens = ByteLens(r.a) /\ x.walkA.total = Len(ImageData(r.a))
+                         /\ SpecLens(e.cols, r.a, ImageData(r.a), 1) = ByteLens(r.a)),
+                "decoding the after image column by column does not consume it exactly">>})
+            : i \in 1..Min2(Len(e.rows), Len(o.rows))}
+
+(***************************************************************************)
+(* C15 (format half): table-map events.                                    *)
+(***************************************************************************)
+\* the library's packing of per-column metadata into one number (TableMap.Metadata, as documented on the type):
+\* none -> 0, one byte -> that byte, NEWDECIMAL/ENUM/SET/STRING -> first byte * 256 + second, VARCHAR/BIT -> little endian
+LibMeta(t, mb) ==
+  IF Len(mb) = 0 THEN 0 ELSE IF Len(mb) = 1 THEN mb[1]
+  ELSE IF t \in {TNewDecimal, TEnum, TSet, TString} THEN mb[1] * 256 + mb[2] ELSE mb[1] + 256 * mb[2]
+
+MonTableMap(e) ==
+  LET o == e.obs  n == Len(e.cols) IN
+  IF o.panic THEN {F("C15.panic", e, "TableMap() panicked on a well-formed event")}
+  ELSE IF o.err THEN {F("C15.error", e, "TableMap() returned an error for a well-formed event")}
+  ELSE Chk("C15.tablemap", e, {
+         <<o.istm /\ o.tid = e.tid, "table id">>,
+         <<o.db = e.db /\ o.name = e.name, "database / table name">>,
+         <<Len(o.types) = n /\ Len(o.metas) = n /\ Len(o.nullable) = n, "column count">>,
+         <<Len(o.types) = n => \A c \in 1..n : o.types[c] = e.cols[c].typ, "column types">>,
+         <<Len(o.metas) = n => \A c \in 1..n : o.metas[c] = LibMeta(e.cols[c].typ, e.cols[c].metab), "per-type metadata / byte order">>,
+         <<Len(o.nullable) = n => \A c \in 1..n : (o.nullable[c] = 1) = e.cols[c].nullable, "nullability bitmap">>})
+
+(***************************************************************************)
+(* C16: headers and control events, with and without a trailing checksum.  *)
+(***************************************************************************)
+RECURSIVE TrimNul(_)
+TrimNul(t) == IF t # <<>> /\ t[Len(t)] = 0 THEN TrimNul(Sub(t, 1, Len(t) - 1)) ELSE t
+HdrOK(e) == e.obs.valid /\ e.obs.ts = e.ts /\ e.obs.np = e.np
+
+MonEvent(e) ==
+  LET o == e.obs IN
+  CASE e.fn = "ev.fde" ->
+         Chk("C16.fde", e, {
+           <<~o.err /\ ~o.panic /\ o.valid /\ o.isfde, "FORMAT_DESCRIPTION rejected">>,
+           <<o.ts = e.ts /\ o.np = e.np, "header timestamp / next position">>,
+           <<o.version = 4 /\ o.hlen = 19, "binlog version / header length">>,
+           <<o.srvver = TrimNul(e.srvver), "server version">>,
+           <<o.sizes = e.sizes, "per-event header sizes">>,
+           <<o.alg = e.alg, "checksum algorithm">>})
+    [] e.fn = "ev.rotate" ->
+         Chk("C16.rotate", e, {<<~o.err /\ ~o.panic /\ o.is /\ HdrOK(e), "ROTATE header">>,
+                               <<o.file = e.file /\ o.pos = e.pos, "ROTATE file name / position">>})
+    [] e.fn = "ev.query" ->
+         Chk("C16.query", e, {<<~o.err /\ ~o.panic /\ o.is /\ HdrOK(e), "QUERY header">>,
+                              <<o.db = e.db, "QUERY database">>,
+                              <<o.sql = e.sql, "QUERY SQL text">>,
+                              <<o.charset = e.charset, "QUERY session charset (whatever other status variables are present)">>})
+    [] e.fn = "ev.xid" -> Chk("C16.xid", e, {<<o.is /\ HdrOK(e), "XID header">>})
+    [] e.fn = "ev.intvar" ->
+         Chk("C16.intvar", e, {<<~o.err /\ ~o.panic /\ o.is /\ HdrOK(e), "INTVAR header">>, <<o.kind = e.kind /\ o.value = e.value, "INTVAR kind / value">>})
+    [] e.fn = "ev.rand" ->
+         Chk("C16.rand", e, {<<~o.panic /\ o.is /\ HdrOK(e), "RAND header">>, <<o.s1 = e.s1 /\ o.s2 = e.s2, "RAND seeds">>})
+
+(***************************************************************************)
+(* C17 (format half): the validity gate.                                   *)
+(***************************************************************************)
+\* a buffer holds a full 19-byte header and its length field (bytes 10..13, little endian) equals the buffer length
+LenFieldIs(buf, n) == buf[10] = n % 256 /\ buf[11] = (n \div 256) % 256 /\ buf[12] = (n \div 65536) % 256 /\ buf[13] = n \div 16777216
+IsValidSpec(buf) == Len(buf) >= 19 /\ LenFieldIs(buf, Len(buf))
+MonIsValid(e) ==
+  Chk("C17.gate", e, {
+    <<~e.obs.panic, "IsValid panicked">>,
+    <<e.obs.valid = IsValidSpec(e.buf), "IsValid disagrees with: full 19-byte header and length field = buffer length">>,
+    <<~e.obs.accpanic, "a header accessor panicked on an accepted buffer">>})
+
 Mon(e) ==
-  CASE e.fn = "gs56.add" -> MonGs56Add(e)
+  CASE e.fn = "rows" -> MonRows(e)
+    [] e.fn = "tablemap" -> MonTableMap(e)
+    [] e.fn \in {"ev.fde", "ev.rotate", "ev.query", "ev.xid", "ev.intvar", "ev.rand"} -> MonEvent(e)
+    [] e.fn = "isvalid" -> MonIsValid(e)
+    [] e.fn = "gs56.add" -> MonGs56Add(e)
     [] e.fn = "gs56.history" -> MonGs56History(e)
     [] e.fn = "gs56.pair" -> MonGs56Pair(e)
     [] e.fn = "gtid56" -> MonGtid56(e)
